@@ -89,6 +89,7 @@ def run_case(ctx, name, params):
     idx_of = {}
     scripts_all = list(scripts)
 
+    cur_box = [bxs]
     box_after = {}          # call number -> the box declared when that call ended (the objective may re-declare it, see below)
     redeclare = {"on": False, "left": 0}
 
@@ -183,7 +184,7 @@ def run_case(ctx, name, params):
             ctx.count("batches_after_bounds_edited_in_place")
         bxs = nb
         mids[:] = [lb + (ub - lb) / 2 for lb, ub in bxs]
-    cur_box = [bxs]
+    cur_box[0] = bxs
     if procs == 1 and not iv_mode and not constrained and r.random() < 0.15:
         redeclare["on"] = True
         redeclare["left"] = r.randint(1, 2)
